@@ -19,13 +19,22 @@ import (
 func init() {
 	Register("C27", Extractor{Import: "Hv.Props.C27", Type: "Hv.C27.Facts", Run: func(fs *Facts) {
 		const path = "sdk/go/hydraidego/hydrex/hydrex.go"
-		for _, n := range []string{"updatesExisting", "saveRemovesStale", "destroyCleansIndex"} {
+		for _, n := range []string{"updatesExisting", "saveRemovesStale", "destroyCleansIndex", "namesVerbatim"} {
 			fs.Tri(n, Unknown, path)
 		}
 		f, err := Load(path)
 		if err != nil {
 			fs.Err("%v", err)
 			return
+		}
+		// name builders: nothing but Sanctuary(const).Realm(indexName).Swamp(domain | key), two different sanctuaries
+		cd, ix := f.Func("hydrex", "createCoreDataName"), f.Func("hydrex", "createIndexName")
+		if cd != nil && ix != nil && cd.Body != nil && ix.Body != nil && len(cd.Body.List) == 1 && len(ix.Body.List) == 1 {
+			okNames := f.Str(cd.Body.List[0]) == "return name.New().Sanctuary(sanctuaryHydraideCoreData).Realm(indexName).Swamp(domain)" &&
+				f.Str(ix.Body.List[0]) == "return name.New().Sanctuary(sanctuaryHydraideIndex).Realm(indexName).Swamp(key)" &&
+				c27Const(f, "sanctuaryHydraideIndex") != "" && c27Const(f, "sanctuaryHydraideCoreData") != "" &&
+				c27Const(f, "sanctuaryHydraideIndex") != c27Const(f, "sanctuaryHydraideCoreData")
+			fs.Tri("namesVerbatim", TriOf(okNames), path+":"+itoa(f.Line(cd)))
 		}
 		save := f.Func("hydrex", "Save")
 		destroy := f.Func("hydrex", "Destroy")
@@ -77,4 +86,19 @@ func init() {
 			fs.Tri("destroyCleansIndex", TriOf(collects && calls), path+":"+itoa(f.Line(destroy)))
 		}
 	}})
+}
+
+func c27Const(f *File, name string) string {
+	out := ""
+	ast.Inspect(f.AST, func(n ast.Node) bool {
+		if vs, ok := n.(*ast.ValueSpec); ok && len(vs.Names) == len(vs.Values) {
+			for i, nm := range vs.Names {
+				if nm.Name == name {
+					out = f.Str(vs.Values[i])
+				}
+			}
+		}
+		return true
+	})
+	return out
 }
